@@ -175,6 +175,54 @@ func features(schema any) map[string]bool {
 			}
 		}
 	}
+	// an enum constant is named <name of the enum type><value>; nothing keeps that name apart from other declarations: a constant of
+	// the enum under key N with value V meets a property / definition whose name ends in N+V, or a constant N2+V2 of another enum
+	{
+		norm := func(s string) string { return strings.ToLower(nonAlnum.ReplaceAllString(s, "")) }
+		var names []string             // keys of properties / definitions (normalised)
+		constOf := map[string]string{} // normalised key+value -> key of the enum
+		var collect func(v any)
+		collect = func(v any) {
+			switch x := v.(type) {
+			case []any:
+				for _, e := range x {
+					collect(e)
+				}
+			case map[string]any:
+				for _, ck := range []string{"properties", "$defs", "definitions"} {
+					if pm, ok := x[ck].(map[string]any); ok {
+						for _, k := range space.SortedKeys(pm) {
+							names = append(names, norm(k))
+							if em, ok := pm[k].(map[string]any); ok {
+								if en, ok := em["enum"].([]any); ok {
+									for _, e := range en {
+										if sv, ok := e.(string); ok {
+											c := norm(k) + norm(sv)
+											if other, dup := constOf[c]; dup && other != k {
+												f["enum-const-collision"] = true
+											}
+											constOf[c] = k
+										}
+									}
+								}
+							}
+						}
+					}
+				}
+				for _, k := range space.SortedKeys(x) {
+					collect(x[k])
+				}
+			}
+		}
+		collect(schema)
+		for c := range constOf {
+			for _, n := range names {
+				if n != "" && strings.HasSuffix(n, c) {
+					f["enum-const-collision"] = true
+				}
+			}
+		}
+	}
 	return f
 }
 
